@@ -477,6 +477,8 @@ class Evaluator:
                 len(targs) == 1 and isinstance(targs[0], (tuple, list,
                                                           frozenset)):
             self.calls.pop()
+            if fname == 'list':
+                return list(targs[0])      # mutable: pop/append are applied
             return tuple(targs[0]) if fname != 'set' and \
                 fname != 'frozenset' else frozenset(targs[0])
         if fname == 'isinstance':
